@@ -819,7 +819,9 @@ def c01_c02(ck, owner):
     # plus blocks of several hundred instructions (more than 255 machine cycles in one block) and
     # instructions that straddle the end of ROM bank 0 with banks other than 1 mapped
     extra = gbprog.long_blocks(300 if thorough else 30, rng) + gbprog.straddle_programs(rom_only=True)
-    pair_traces(ck, blocks[:(20000 if thorough else 2000)] + extra, "blocks", "block", owner, shards=12)
+    # multi-block programs with interrupt dispatches between translated blocks (cycles pending across block entry)
+    progs = [dict(x, mode="block") for x in gbprog.structured_programs(200 if thorough else 24, rng, start_id=2300000, steps=250)]
+    pair_traces(ck, blocks[:(20000 if thorough else 2000)] + extra + progs, "blocks", "block", owner, shards=12)
     lb = os.path.join(rundir(), "longblocks.ndjson")
     gbprog.write_scenarios(lb, extra)
     for m in gbv(["blocks", "--scenarios", lb]):
@@ -977,6 +979,7 @@ def c04(ck):
     ck.add_tlc("MC_CodeCache", mc)
     n = 1500 if thorough else 60
     scs = gbprog.structured_programs(n, rng) + gbprog.structured_programs(n // 3, rng, start_id=2200000, mbc=0x33) \
+        + gbprog.structured_programs(n // 3, rng, start_id=2250000, mbc=0x52) \
         + gbprog.alu_table_programs(rng)
     # the interpreter build steps one instruction per update(), the jit build one block: compare like with like
     # by stepping both block by block (Core::run_code_block; a halted CPU ticks through update())
